@@ -5,10 +5,13 @@ instances that each own a private django.template.Library, for several tag forma
 protected tags.
 
 (a) exhaustive enumeration of all histories of the 13 mutating operations (3 names x 3 classes register,
-    3 unregister, clear) up to a length bound, for 6 configurations, sharded by (configuration, first op);
-(b) Hypothesis-generated longer histories over 5 names x 4 classes on 1-3 registries with generated
-    formatters (built-in ones by import path or instance, generated name->tag maps), generated protected
-    lists and every documented way of configuring the formatter.
+    3 unregister, clear) up to a length bound, for 6 configurations, sharded by (configuration, first op); 4 more
+    configurations (marked libraries that lack the protected names as tags; a settings callable that switches
+    between the default and the shorthand formatter) up to a shorter bound;
+(b) Hypothesis-generated longer histories over 5 names x 4 classes (some sharing their __name__) on 1-3 registries
+    with generated formatters (built-in ones by import path or instance, generated name->tag maps), generated
+    protected lists, libraries with / without the protected names as tags, every documented way of configuring the
+    formatter, and formatter changes in the middle of a history (settings callable / global setting).
 
 Oracle = plain dict per registry + an independent start-tag function + the set of protected tags.
 """
@@ -24,31 +27,50 @@ RULE = (
     "unregister(n), clear()} up to the length bound on one registry with a private Library, for 6 configurations: "
     "{component_formatter, component_shorthand_formatter} x {library marked with mark_protected_tags, not marked} plus a "
     "custom TagFormatterABC that maps alpha,beta -> one tag and slot -> `slot` (marked / not marked); after EVERY step "
-    "get(n) for all names, all(), `n in all()` and set(library.tags) are compared with the model. Part hyp: Hypothesis "
-    "lists of 5-45 calls (register via method or @register decorator, unregister, clear, get, all, in) over 5 names "
-    "(alpha, beta, slot, fill, component) x 4 classes on 1-3 registries, each with its own Library, formatter "
-    "(built-in by import path / instance, or generated name->tag map), protected list (none / default / generated) and "
+    "get(n) for all names, all(), `n in all()` and set(library.tags) are compared with the model. Up to the shorter bound "
+    "dfs_extra_len the same enumeration for 4 more configurations: shorthand / map formatter on a marked private Library "
+    "in which NONE of the protected names is a tag (fresh Library() + mark_protected_tags), and a registry whose settings "
+    "are a callable, with two extra operations that make the callable answer component_formatter / "
+    "component_shorthand_formatter from then on (marked / not marked). The three classes: two share their __name__ and "
+    "differ in the module, the third has another name in the first one's module. Part hyp: Hypothesis "
+    "lists of up to 45 calls (register via method or @register decorator, unregister, clear, get, all, in, and `setfmt` = "
+    "the settings callable of the registry, or the global COMPONENTS setting it follows, answers with another generated "
+    "formatter from now on) over 5 names "
+    "(alpha, beta, slot, fill, component) x 4 classes (three share their __name__ and differ in module or qualname) on "
+    "1-3 registries, each with its own Library, formatter "
+    "(built-in by import path / instance, or generated name->tag map), protected list (none / default / generated), a "
+    "generated subset of the built-in / protected names that are NOT tags of the library (none / all / some) and "
     "way of passing the formatter (RegistrySettings.tag_formatter, deprecated TAG_FORMATTER, settings callable, global "
-    "COMPONENTS setting). Model: dict name->class; AlreadyRegistered iff bound to another class; NotRegistered iff missing; "
-    "TagProtectedError iff start tag protected; set(library.tags) - initial == start tags of registered names; initial "
+    "COMPONENTS setting). Model: dict name->class and name->start tag under the formatter in force when the name was "
+    "registered; AlreadyRegistered iff bound to another class (import path, not __name__); NotRegistered iff missing; "
+    "TagProtectedError iff the start tag is in the protected list (whether or not the library has such a tag), state "
+    "unchanged; set(library.tags) - initial == start tags of registered names; initial "
     "(protected / unrelated) tag entries keep their identity; default registry + default library untouched. "
     "Non-trivial = the history contains a successful unregister(n) executed while another registered name of the same "
     "registry shares n's start tag, or a clear() executed while two registered names share a start tag; "
     "distinct by (configuration, call sequence)."
 )
 ASSUMPTIONS = [
-    "component classes have distinct import paths (the registry identifies classes by a hash of module + qualname)",
+    "component classes have distinct import paths (the registry identifies classes by a hash of module + qualname); their "
+    "__name__ may coincide",
     "every registry owns its Library (two registries on one Library / one start tag are rejected by the library by design)",
-    "the tag formatter and the protected list of a registry do not change during a history",
-    "pre-existing library tags that are NOT protected never coincide with a start tag the formatter can produce "
-    "(the registry overwrites and later deletes such tags by documented design: protection is opt-in for private libraries)",
+    "the protected list of a library does not change during a history; the tag formatter changes only where the history "
+    "says so (`setfmt`) and only for registries that look it up on every call (settings callable / global setting); a name "
+    "registered before the change keeps the start tag it was registered under until it is unregistered",
+    "DISABLED sub-domain (REREGISTER_UNDER_CHANGED_TAG = False): re-registering the SAME class under a name whose start tag "
+    "differs from the one it was registered under (formatter changed in between) - such calls are generated but not made, "
+    "counted under the label skipped_same_class_reregistration_under_changed_start_tag; the unmodified library leaves "
+    "the old tag in the library for good there (replays/C15/reregister_under_changed_tag.json)",
+    "pre-existing library tags that are NOT protected never coincide with a start tag any formatter of the history can "
+    "produce (the registry overwrites and later deletes such tags by documented design: protection is opt-in for private "
+    "libraries)",
     "component names / formatter outputs are valid tag names (TAG_RE); other names raise ValueError by design",
     "`in` is evaluated as `name in registry.all()` (ComponentRegistry 0.129 has no __contains__)",
     "order of all() is not compared (only dict equality and identity of the classes)",
 ]
 BOUNDS = {
-    "quick": {"dfs_len": 5, "dfs_sparse_len": 4, "hyp_examples": 24000, "hyp_per_shard": 750, "hyp_max_ops": 45},
-    "thorough": {"dfs_len": 6, "dfs_sparse_len": 5, "hyp_examples": 160000, "hyp_per_shard": 1000, "hyp_max_ops": 45},
+    "quick": {"dfs_len": 5, "dfs_sparse_len": 4, "dfs_extra_len": 4, "hyp_examples": 24000, "hyp_per_shard": 750, "hyp_max_ops": 45},
+    "thorough": {"dfs_len": 6, "dfs_sparse_len": 5, "dfs_extra_len": 5, "hyp_examples": 160000, "hyp_per_shard": 1000, "hyp_max_ops": 45},
 }
 
 # ---------------------------------------------------------------------------
@@ -69,6 +91,11 @@ PATHS = {
     "shorthand": "django_components.component_shorthand_formatter",
 }
 
+# Same-class re-registration of a name whose start tag differs from the one it was registered under (the formatter
+# changed in between). DISABLED: the unmodified library violates the property there (the old tag stays in the library
+# for good, see replays/C15/reregister_under_changed_tag.json); while False such calls are generated but not made.
+REREGISTER_UNDER_CHANGED_TAG = False
+
 F_DEFAULT = {"kind": "default", "form": "path"}
 F_SHORT = {"kind": "shorthand", "form": "path"}
 F_MAP = {"kind": "map", "form": "instance", "map": {"alpha": "grp", "beta": "grp", "slot": "slot"}}
@@ -83,7 +110,22 @@ DFS_CONFIGS = [
 ]
 
 
-def dfs_ops():
+# further configurations, enumerated up to BOUNDS[tier]["dfs_extra_len"]: (label, registry spec, extra operations)
+F_DEFAULT_I = {"kind": "default", "form": "instance"}
+F_SHORT_I = {"kind": "shorthand", "form": "instance"}
+_TOGGLE = [(0, "setfmt", F_DEFAULT_I), (0, "setfmt", F_SHORT_I)]
+DFS_EXTRA_CONFIGS = [
+    # a fresh private Library that is marked while none of the protected names is a tag of it
+    ("shorthand/protected-names-not-in-library", {"fmt": F_SHORT, "via": "settings", "protected": "default", "absent": "all"}, []),
+    ("map/protected-names-not-in-library", {"fmt": F_MAP, "via": "settings", "protected": "default", "absent": "all"}, []),
+    # settings given as a callable whose answer switches between the default and the shorthand formatter
+    ("default<->shorthand via callable/unmarked", {"fmt": F_DEFAULT_I, "via": "callable", "protected": None}, _TOGGLE),
+    ("default<->shorthand via callable/protected", {"fmt": F_DEFAULT_I, "via": "callable", "protected": "default"}, _TOGGLE),
+]
+ALL_DFS_CONFIGS = [(n, r, []) for n, r in DFS_CONFIGS] + DFS_EXTRA_CONFIGS
+
+
+def dfs_ops(extra=()):
     ops = []
     for n in NAMES:
         for c in range(NCLS_DFS):
@@ -91,6 +133,7 @@ def dfs_ops():
     for n in NAMES:
         ops.append((0, "unregister", n))
     ops.append((0, "clear"))
+    ops.extend(extra)
     return ops
 
 
@@ -99,17 +142,45 @@ _OP_LETTERS = "abcdefghijklmnopqrstuvwxyz"
 _cls_cache = []
 
 
+# (name, module, qualname) of the generated classes: all import paths differ (see ASSUMPTIONS); 0, 1 and 3 share their
+# __name__ and differ only in the module (0/1: `forms.Button` vs `tables.Button`) or the qualname (0/3: a nested class);
+# 0 and 2 share the module and differ in the name. The dfs part uses 0-2, the hyp part all four.
+OTHER_MODULE = "vf_c15_other_app.components"
+CLASS_SPECS = [
+    ("VfC15K", None, "VfC15K"),
+    ("VfC15K", OTHER_MODULE, "VfC15K"),
+    ("VfC15K2", None, "VfC15K2"),
+    ("VfC15K", None, "VfC15Outer.VfC15K"),
+]
+
+
 def classes():
     """Four component classes with distinct import paths, created once per process."""
     if not _cls_cache:
+        import sys
+        import types
+
         from django_components import Component
 
-        for i in range(NCLS_HYP):
-            _cls_cache.append(type("VfC15K%d" % i, (Component,), {"__module__": __name__}))
+        if OTHER_MODULE not in sys.modules:
+            pkg = OTHER_MODULE.split(".")[0]
+            for modname in (pkg, OTHER_MODULE):
+                mod = types.ModuleType(modname)
+                mod.__file__ = None
+                sys.modules[modname] = mod
+        for name, module, qualname in CLASS_SPECS:
+            cls = type(name, (Component,), {"__module__": module or __name__, "__qualname__": qualname})
+            if (cls.__name__, cls.__module__, cls.__qualname__) != (name, module or __name__, qualname):
+                raise RuntimeError("generated class has the wrong identity: %r" % (cls,))
+            _cls_cache.append(cls)
         hashes = {c._class_hash for c in _cls_cache}
         if len(hashes) != len(_cls_cache):
             raise RuntimeError("generated classes share a class hash: %r" % (hashes,))
     return _cls_cache
+
+
+def _same_short_name(ci, cj):
+    return ci != cj and CLASS_SPECS[ci][0] == CLASS_SPECS[cj][0]
 
 
 _map_formatter_cls = []
@@ -202,12 +273,23 @@ def _symbols():
     return _sym
 
 
+def _follows_global(rspec):
+    return rspec.get("fmt") is None or rspec.get("via") == "global"
+
+
+def _can_change_formatter(rspec):
+    """Registries whose formatter is looked up again on every call: settings given as a callable, or no registry-level
+    formatter (the global COMPONENTS setting applies). A RegistrySettings tuple is immutable."""
+    return _follows_global(rspec) or rspec.get("via") == "callable"
+
+
 class RegModel:
     """Reference model of one registry + its library."""
 
-    def __init__(self, idx, rspec, global_fmt):
+    def __init__(self, idx, rspec, global_fmt, later_fmts=()):
         self.idx = idx
-        self.fmt = rspec["fmt"] if rspec.get("fmt") is not None else (global_fmt or F_DEFAULT)
+        self.follows_global = _follows_global(rspec)
+        self.fmt = (global_fmt or F_DEFAULT) if self.follows_global else rspec["fmt"]
         prot = rspec.get("protected")
         if prot is None:
             self.prot = frozenset()
@@ -216,24 +298,32 @@ class RegModel:
         else:
             self.prot = frozenset(prot)
         self.d = {}  # name -> class index
-        image = {model_start_tag(self.fmt, n) for n in HNAMES}
+        self.tag = {}  # name -> start tag under the formatter that was in force when the name was registered
+        # every start tag any formatter of this history can produce
+        image = {model_start_tag(f, n) for f in [self.fmt, *later_fmts] for n in HNAMES}
+        absent = rspec.get("absent")
         init = []
         for t in BUILTIN_PROTECTED + [UNRELATED_TAG] + sorted(self.prot):
             if t in init:
                 continue
             if t in image and t not in self.prot:
                 continue  # see ASSUMPTIONS: unprotected pre-existing tags never collide with a start tag
+            if t != UNRELATED_TAG and absent is not None and (absent == "all" or t in absent):
+                continue  # a (protected) name that is not a tag of this library
             init.append(t)
         self.initial_names = init
+        self.absent_protected = self.prot - set(init)
         self.initial = {}  # tag -> sentinel object (filled by build)
         self.reg = None
         self.lib = None
+        self.holder = None
+        self.changed = False  # the formatter was replaced by one that maps some name to another start tag
 
     def start(self, name):
         return model_start_tag(self.fmt, name)
 
     def expected_tags(self):
-        return {self.start(n) for n in self.d}
+        return set(self.tag.values())
 
 
 def build(rspec, model):
@@ -255,7 +345,7 @@ def build(rspec, model):
         mine.append("alpha")
         del mine[:-1]
     via = rspec.get("via", "settings")
-    if rspec.get("fmt") is None or via == "global":
+    if model.follows_global:
         settings = None
     else:
         val = _formatter_value(rspec["fmt"])
@@ -264,7 +354,9 @@ def build(rspec, model):
         elif via == "legacy":
             settings = RegistrySettings(TAG_FORMATTER=val)
         elif via == "callable":
-            settings = lambda reg, _v=val: RegistrySettings(tag_formatter=_v)  # noqa: E731
+            # "a callable that returns the settings": consulted on every call, so its answer may change (op `setfmt`)
+            holder = model.holder = {"v": val}
+            settings = lambda reg, _h=holder: RegistrySettings(tag_formatter=_h["v"])  # noqa: E731
         else:
             raise ValueError(via)
     model.lib = lib
@@ -332,7 +424,7 @@ def state_errors(m, names, clss, use_all=True):
 
 def _show(d):
     try:
-        return {k: getattr(v, "__name__", v) for k, v in d.items()}
+        return {k: "%s.%s" % (v.__module__, v.__qualname__) if isinstance(v, type) else v for k, v in d.items()}
     except Exception:  # noqa
         return d
 
@@ -361,14 +453,19 @@ def _outcome(exc):
 
 
 class Stats:
-    __slots__ = ("shared_removal", "already", "notreg", "protected", "noop", "clear_nonempty", "max_shared", "nregs", "nops")
+    __slots__ = (
+        "shared_removal", "already", "notreg", "protected", "noop", "clear_nonempty", "max_shared", "nregs", "nops",
+        "protected_absent", "already_same_name", "fmt_changed", "reg_after_change", "mixed_tags", "skipped",
+    )
 
     def __init__(self):
         self.shared_removal = False
         self.already = self.notreg = self.protected = self.noop = self.clear_nonempty = False
+        self.protected_absent = self.already_same_name = self.fmt_changed = self.reg_after_change = self.mixed_tags = False
         self.max_shared = 0
         self.nregs = 0
         self.nops = 0
+        self.skipped = 0
 
     def labels(self):
         out = []
@@ -376,18 +473,30 @@ class Stats:
             out.append("removal_while_tag_shared")
         if self.already:
             out.append("has_AlreadyRegistered")
+        if self.already_same_name:
+            out.append("has_AlreadyRegistered_between_classes_with_equal___name__")
         if self.notreg:
             out.append("has_NotRegistered")
         if self.protected:
             out.append("has_TagProtectedError")
+        if self.protected_absent:
+            out.append("has_TagProtectedError_for_protected_name_that_is_no_tag_of_the_library")
         if self.noop:
             out.append("has_same_class_reregistration")
         if self.clear_nonempty:
             out.append("has_clear_of_nonempty")
+        if self.fmt_changed:
+            out.append("formatter_changed_during_history")
+        if self.reg_after_change:
+            out.append("has_new_registration_after_formatter_change")
+        if self.mixed_tags:
+            out.append("names_registered_under_different_formatters_coexist")
+        if self.skipped:
+            out.append("skipped_same_class_reregistration_under_changed_start_tag")
         return out
 
 
-def run_ops(regspecs, global_fmt, ops, full_every_step=True, sparse_all=False):
+def run_ops(regspecs, global_fmt, ops, full_every_step=True, sparse_all=False, rereg=None):
     """Execute a history. Returns (failures, Stats). failures: list[(message, bucket)]."""
     sym = _symbols()
     django_components, all_registries = sym["djc"], sym["all_registries"]
@@ -395,18 +504,33 @@ def run_ops(regspecs, global_fmt, ops, full_every_step=True, sparse_all=False):
     if "s" not in _global_snapshot:
         env.reset()
         _global_snapshot["s"] = _global_state()
+    if rereg is None:
+        rereg = REREGISTER_UNDER_CHANGED_TAG
     st = Stats()
     st.nregs = len(regspecs)
     st.nops = len(ops)
     fails = []
     n0 = len(all_registries)
-    ctx = None
-    if global_fmt is not None:
-        ctx = env.components_settings(tag_formatter=_formatter_value(global_fmt))
-        ctx.__enter__()
+    gctx = []  # the override of the global COMPONENTS["tag_formatter"] that is in force (at most one)
+
+    def set_global(fmt):
+        while gctx:
+            gctx.pop().__exit__(None, None, None)
+        if fmt is not None:
+            c = env.components_settings(tag_formatter=_formatter_value(fmt))
+            c.__enter__()
+            gctx.append(c)
+
     try:
-        models = [build(rs, RegModel(i, rs, global_fmt)) for i, rs in enumerate(regspecs)]
-        names = HNAMES if (len(regspecs) > 1 or any(len(o) > 2 and o[2] not in NAMES for o in ops)) else NAMES
+        set_global(global_fmt)
+        models = []
+        for i, rs in enumerate(regspecs):
+            if _follows_global(rs):
+                later = [o[2] for o in ops if o[1] == "setfmt" and _follows_global(regspecs[o[0]])]
+            else:
+                later = [o[2] for o in ops if o[1] == "setfmt" and o[0] == i]
+            models.append(build(rs, RegModel(i, rs, global_fmt, later)))
+        names = HNAMES if (len(regspecs) > 1 or any(len(o) > 2 and o[1] != "setfmt" and o[2] not in NAMES for o in ops)) else NAMES
         for m in models:  # a fresh registry is an empty dict and leaves the library alone
             errs = state_errors(m, names, clss)
             if errs:
@@ -418,39 +542,74 @@ def run_ops(regspecs, global_fmt, ops, full_every_step=True, sparse_all=False):
             reg = m.reg
             exc = None
             ret = None
-            if kind == "register":
+            if kind == "setfmt":
+                # not a call on the registry: the registry's settings getter (or the global COMPONENTS setting the registry
+                # follows) answers with another tag formatter from now on. Names registered so far keep their tags.
+                fmt = op[2]
+                want = "ok"
+                targets = [x for x in models if x.follows_global] if m.follows_global else [m]
+                if not _can_change_formatter(regspecs[op[0]]):
+                    raise ValueError("setfmt on a registry with fixed settings: %r" % (op,))
+                if any(model_start_tag(fmt, n) != x.start(n) for x in targets for n in HNAMES):
+                    st.fmt_changed = True
+                    for x in targets:
+                        x.changed = True
+                if m.follows_global:
+                    set_global(fmt)
+                else:
+                    m.holder["v"] = _formatter_value(fmt)
+                for x in targets:
+                    x.fmt = fmt
+            elif kind == "register":
                 name, ci = op[2], op[3]
                 tag = m.start(name)
-                if tag in m.prot:
+                if name in m.d and m.d[name] != ci:
+                    want = "AlreadyRegistered"  # "raised exactly on conflicting names"
+                elif name in m.d and m.tag[name] != tag and not rereg:
+                    want = "skip"  # outside the enabled domain (see REREGISTER_UNDER_CHANGED_TAG): the call is not made
+                elif tag in m.prot:
                     want = "TagProtectedError"
-                elif name in m.d and m.d[name] != ci:
-                    want = "AlreadyRegistered"
                 else:
                     want = "ok"
                 deco = len(op) > 4 and op[4]
                 try:
-                    if deco:
+                    if want == "skip":
+                        pass
+                    elif deco:
                         ret = django_components.register(name, registry=reg)(clss[ci])
                     else:
                         reg.register(name, clss[ci])
                 except Exception as e:  # noqa  (classified below; anything unexpected is a failure)
                     exc = e
-                if want == "ok":
+                if want == "skip":
+                    st.skipped += 1
+                    want, ret = "ok", clss[ci]
+                elif want == "ok":
                     if name in m.d:
                         st.noop = True
+                    elif m.changed:
+                        st.reg_after_change = True
                     m.d[name] = ci
+                    # a same-class re-registration under a changed formatter moves the name to its new start tag
+                    m.tag[name] = tag
+                    if len({m.tag[k] == m.start(k) for k in m.d}) == 2:
+                        st.mixed_tags = True
                 elif want == "AlreadyRegistered":
                     st.already = True
+                    if _same_short_name(m.d[name], ci):
+                        st.already_same_name = True
                 else:
                     st.protected = True
+                    if tag in m.absent_protected:
+                        st.protected_absent = True
                 if exc is None and deco and ret is not clss[ci]:
                     fails.append(("step %d: @register(%r) returned %r instead of the class" % (i, name, ret), "decorator-return"))
             elif kind == "unregister":
                 name = op[2]
                 if name in m.d:
                     want = "ok"
-                    tag = m.start(name)
-                    if any(k != name and m.start(k) == tag for k in m.d):
+                    tag = m.tag[name]
+                    if any(k != name and m.tag[k] == tag for k in m.d):
                         st.shared_removal = True
                 else:
                     want = "NotRegistered"
@@ -461,11 +620,12 @@ def run_ops(regspecs, global_fmt, ops, full_every_step=True, sparse_all=False):
                     exc = e
                 if want == "ok":
                     del m.d[name]
+                    del m.tag[name]
             elif kind == "clear":
                 want = "ok"
                 if m.d:
                     st.clear_nonempty = True
-                    tags = [m.start(k) for k in m.d]
+                    tags = [m.tag[k] for k in m.d]
                     if len(set(tags)) != len(tags):
                         st.shared_removal = True
                 try:
@@ -473,6 +633,7 @@ def run_ops(regspecs, global_fmt, ops, full_every_step=True, sparse_all=False):
                 except Exception as e:  # noqa
                     exc = e
                 m.d.clear()
+                m.tag.clear()
             elif kind == "get":
                 name = op[2]
                 want = "ok" if name in m.d else "NotRegistered"
@@ -528,13 +689,16 @@ def run_ops(regspecs, global_fmt, ops, full_every_step=True, sparse_all=False):
             _global_snapshot["s"] = _global_state()
     finally:
         del all_registries[n0:]
-        if ctx is not None:
-            ctx.__exit__(None, None, None)
+        set_global(None)
     return fails, st
 
 
 def run_case(case, full_every_step=True):
-    return run_ops(case["regs"], case.get("global_fmt"), [tuple(o) for o in case["ops"]], full_every_step=full_every_step, sparse_all=bool(case.get("sparse_all")))
+    # "reregister_under_changed_tag": true in a (hand-kept) case switches the disabled sub-domain on for that case only
+    return run_ops(
+        case["regs"], case.get("global_fmt"), [tuple(o) for o in case["ops"]], full_every_step=full_every_step,
+        sparse_all=bool(case.get("sparse_all")), rereg=True if case.get("reregister_under_changed_tag") else None,
+    )
 
 
 # ---------------------------------------------------------------------------
@@ -554,6 +718,9 @@ def plan(tier, seed, scale=1.0):
     # the same enumeration with all() as a step of its own and not called by the per-step observation (shorter)
     for first in range(nops):
         specs.append({"kind": "dfs", "cfg": 0, "first": first, "maxlen": b["dfs_sparse_len"], "sparse": True})
+    for ci in range(len(DFS_CONFIGS), len(ALL_DFS_CONFIGS)):
+        for first in range(len(dfs_ops(ALL_DFS_CONFIGS[ci][2]))):
+            specs.append({"kind": "dfs", "cfg": ci, "first": first, "maxlen": b["dfs_extra_len"]})
     n = max(16, int(b["hyp_examples"] * scale))
     # Hypothesis keeps a tree of everything it generated (~0.1 MB per example here): many small shards bound the memory
     nsh = max(16, min(256, n // b["hyp_per_shard"]))
@@ -581,20 +748,42 @@ def _mk_prot(t):
     return None if kind == "none" else ("default" if kind == "default" else lst)
 
 
+def _mk_absent(t):
+    kind, lst = t
+    return None if kind == "none" else ("all" if kind == "all" else lst)
+
+
 def _mk_reg(t):
-    via, fmt, prot = t
-    if via == "global":
-        return {"fmt": None, "via": "global", "protected": prot}
-    return {"fmt": fmt, "via": via, "protected": prot}
+    via, fmt, prot, absent = t
+    out = {"fmt": None if via == "global" else fmt, "via": via, "protected": prot}
+    if absent is not None:
+        out["absent"] = absent
+    return out
 
 
 def _mk_op(t):
     kind, ri, name, ci, deco = t
     if kind == "register":
         return [ri, kind, name, ci, deco]
+    if kind == "setfmt":
+        return [ri, kind, ci]  # the class draw doubles as the choice among the case's formatters (no extra draw per op)
     if kind in ("clear", "all"):
         return [ri, kind]
     return [ri, kind, name]
+
+
+def _mk_case(case):
+    """A RegistrySettings tuple cannot change: `setfmt` only exists for registries that look their formatter up anew."""
+    alts = case.pop("alt_fmts")  # a few formatters per case; a `setfmt` step picks one of them
+    ops = []
+    for o in case["ops"]:
+        if o[1] == "setfmt":
+            if not _can_change_formatter(case["regs"][o[0]]):
+                continue
+            o = [o[0], o[1], alts[o[2] % len(alts)]]
+        ops.append(o)
+    case["ops"] = ops
+    return case
 
 
 def _case_strategy(max_ops):
@@ -604,11 +793,16 @@ def _case_strategy(max_ops):
     mapping = st.dictionaries(st.sampled_from(HNAMES), st.sampled_from(TAG_POOL), min_size=1, max_size=len(HNAMES))
     fmt = st.tuples(st.sampled_from(["default", "default", "shorthand", "map", "map"]), st.sampled_from(["path", "instance"]), mapping).map(_mk_fmt)
     prot = st.tuples(st.sampled_from(["none", "default", "default", "custom"]), st.lists(st.sampled_from(PROT_POOL), unique=True, max_size=3)).map(_mk_prot)
-    regspec = st.tuples(st.sampled_from(["settings", "settings", "legacy", "callable", "global"]), fmt, prot).map(_mk_reg)
+    # which of the names that would be pre-installed as tags (built-in tags, protected names) the library does NOT have
+    absent = st.tuples(
+        st.sampled_from(["none", "none", "all", "all", "some"]),
+        st.lists(st.sampled_from(sorted(set(BUILTIN_PROTECTED + PROT_POOL))), unique=True, min_size=1, max_size=4),
+    ).map(_mk_absent)
+    regspec = st.tuples(st.sampled_from(["settings", "settings", "legacy", "callable", "callable", "global"]), fmt, prot, absent).map(_mk_reg)
     # the first two names are drawn more often so that names collide and tags get shared
     name = st.sampled_from(["alpha", "alpha", "beta", "beta", "slot", "fill", "component"])
     cls = st.sampled_from([0, 0, 1, 2, 3])
-    kinds = st.sampled_from(["register"] * 5 + ["unregister"] * 3 + ["clear", "get", "all", "in"])
+    kinds = st.sampled_from(["register"] * 5 + ["unregister"] * 3 + ["clear", "get", "all", "in", "setfmt", "setfmt"])
 
     def with_n(nregs):
         one = st.tuples(kinds, st.integers(0, nregs - 1), name, cls, st.booleans()).map(_mk_op)
@@ -618,11 +812,12 @@ def _case_strategy(max_ops):
             {
                 "global_fmt": st.one_of(st.none(), fmt),
                 "regs": st.lists(regspec, min_size=nregs, max_size=nregs),
+                "alt_fmts": st.lists(fmt, min_size=3, max_size=3),
                 "ops": ops,
                 # True: all() is called only where the history has an `all` / `in` step (and after the last step)
                 "sparse_all": st.booleans(),
             }
-        )
+        ).map(_mk_case)
 
     return st.sampled_from([1, 1, 1, 2, 2, 3]).flatmap(with_n)
 
@@ -638,8 +833,8 @@ def run_shard(spec):
     kind = spec["kind"]
     if kind == "dfs":
         sparse = bool(spec.get("sparse"))
-        ops = dfs_ops() + ([(0, "all")] if sparse else [])
-        cname, rspec = DFS_CONFIGS[spec["cfg"]]
+        cname, rspec, extra_ops = ALL_DFS_CONFIGS[spec["cfg"]]
+        ops = dfs_ops(extra_ops) + ([(0, "all")] if sparse else [])
         first, maxlen = spec["first"], spec["maxlen"]
         regs = [rspec]
         lbl_cfg = ("dfs_all_as_step:" if sparse else "dfs:") + cname
@@ -670,9 +865,11 @@ def run_shard(spec):
         def check(case):
             fails, stt = run_case(case, full_every_step=True)
             nt = stt.shared_removal
-            labels = ["hyp", "hyp_regs_%d" % stt.nregs, "hyp_len_%s" % ("5-6" if stt.nops <= 6 else "7-20" if stt.nops <= 20 else "21-45")]
+            labels = ["hyp", "hyp_regs_%d" % stt.nregs, "hyp_len_%s" % ("1-6" if stt.nops <= 6 else "7-20" if stt.nops <= 20 else "21-45")]
             labels += ["hyp:" + _cfg_label(r, case.get("global_fmt")) for r in case["regs"]]
             labels += ["hyp_via:" + r.get("via", "settings") for r in case["regs"]]
+            if any(r.get("protected") is not None and r.get("absent") is not None for r in case["regs"]):
+                labels.append("hyp_marked_library_lacking_protected_names")
             labels += stt.labels()
             if case.get("sparse_all"):
                 labels.append("hyp_all_only_where_the_history_calls_it")
